@@ -178,9 +178,13 @@ def model_op(base, text):
         b = obj['cmdline'].split()[-1]
         return names.index(b) if b in names else 99
     bp, rp = dd.payload_tables(lines, key_of_bench, key_of_run)
-    return {'op': 'c09.load', 'text': text, 'hdr': dd.HDR, 'variant': VARIANT,
+    op = {'op': 'c09.load', 'text': text, 'hdr': dd.HDR, 'variant': VARIANT,
             'bench_payloads': bp, 'run_payloads': rp,
-            'cfg': [[i, i, base.params['invocations'], base.params['iterations']] for i in range(len(names))]}
+          'cfg': [[i, i, base.params['invocations'], base.params['iterations']] for i in range(len(names))]}
+    if VARIANT.startswith('custom:'):  # development: e.g. custom:1,0,0 = only the first repair
+        a, b, c = [x == '1' for x in VARIANT[7:].split(',')]
+        op.update({'variant': 'custom', 'metaTolerant': a, 'resetAtComment': b, 'skipUnterminated': c})
+    return op
 
 
 STATUS_OF_END = {'ok': ('ok', 'failed'), 'uiError': ('ui_error',),
